@@ -413,14 +413,14 @@ fn gen_value(rng: &mut Rng, local: i128, f: usize) -> i64 {
 
 pub fn run(ctx: &Ctx) -> PropResult {
     let mut wls = vec![];
-    wls.push(Workload::cases("datetime_setters", ctx.n(400_000, 16_000_000), |rec, idx, rng| {
+    wls.push(Workload::cases("datetime_setters", ctx.count(400_000, 16_000_000), |rec, idx, rng| {
         let i = gen_c09_instant(rng);
         let off = gen_c09_offset(rng, i);
         let f = (idx % 10) as usize;
         let v = gen_value(rng, i + off as i128 * NS, f);
         judge_dt_set(rec, i, off, f, v);
     }));
-    wls.push(Workload::cases("datetime_small_domains_exhaustive", ctx.n(6_000, 200_000), |rec, _, rng| {
+    wls.push(Workload::cases("datetime_small_domains_exhaustive", ctx.count(6_000, 200_000), |rec, _, rng| {
         // every candidate of the small domains on one instant/offset
         let i = gen_c09_instant(rng);
         let off = gen_c09_offset(rng, i);
@@ -441,26 +441,26 @@ pub fn run(ctx: &Ctx) -> PropResult {
             judge_dt_clear(rec, i, off, k);
         }
     }));
-    wls.push(Workload::cases("datetime_clears", ctx.n(200_000, 6_000_000), |rec, idx, rng| {
+    wls.push(Workload::cases("datetime_clears", ctx.count(200_000, 6_000_000), |rec, idx, rng| {
         let i = gen_c09_instant(rng);
         let off = gen_c09_offset(rng, i);
         judge_dt_clear(rec, i, off, (idx % 9) as usize);
     }));
-    wls.push(Workload::cases("date_ops", ctx.n(120_000, 4_000_000), |rec, idx, rng| {
+    wls.push(Workload::cases("date_ops", ctx.count(120_000, 4_000_000), |rec, idx, rng| {
         let i = gen_c09_instant(rng);
         let day = i.div_euclid(D) as i64;
         let f = (idx % 7) as usize;
         let v = if f < 4 { gen_value(rng, day as i128 * D, f) } else { 0 };
         judge_date_op(rec, day, f, v);
     }));
-    wls.push(Workload::cases("time_ops", ctx.n(120_000, 4_000_000), |rec, idx, rng| {
+    wls.push(Workload::cases("time_ops", ctx.count(120_000, 4_000_000), |rec, idx, rng| {
         let n = gen_c09_instant(rng).rem_euclid(D) as u64;
         let off = gen_c09_offset(rng, n as i128);
         let f = (idx % 12) as usize;
         let v = if f < 6 { gen_value(rng, n as i128, f + 4) as u32 } else { 0 };
         judge_time_op(rec, n, off, f, v);
     }));
-    wls.push(Workload::cases("api_walks", ctx.n(30_000, 1_500_000), |rec, _, rng| super::walk::walk(rec, rng, "C09", super::walk::Family::SetClear)));
+    wls.push(Workload::cases("api_walks", ctx.count(30_000, 1_500_000), |rec, _, rng| super::walk::walk(rec, rng, "C09", super::walk::Family::SetClear)));
     let out = run_workloads(ctx, wls);
     let mut meta = PropMeta::default();
     meta.rule = "instants rich in month ends, Feb 28/29/Mar 1 of leap and common (century) years AD and BC, year ends, 0001-01-01 ± 2 d and end-of-day times x offsets {0, whole hours, the offsets that carry the local date across midnight in either direction for that instant ±3 s, uniform ±86399} x 10 setters x candidate values (every value of the small domains on sampled instants; boundary ±1, 2^31, u32::MAX, year 0, leap/common/range-end years, random) and 9 clear_until_*; Date (4 setters, 3 clears) and Time (6 setters, 6 clears, offsets that wrap midnight) likewise. Oracle: local fields of i + offset, edit one field, re-assemble, subtract the offset; all ten getters, the instant and the offset are compared. Results within one day of the range ends are skipped (no representable expectation). Every case is non-trivial; distinct by input hash.".into();
